@@ -45,23 +45,20 @@ fn command_parsing(ident: &Ident, command: &Command) -> TokenStream {
     let variant_name = &command.ident;
     let variant_fqn = quote! { #ident::#variant_name };
 
-    let rhs = if command.args.is_empty() && command.subcommand.is_none() {
-        quote! { #variant_fqn, }
-    } else {
-        let (parsing, arguments) = create_arg_parsing(command);
-        if command.named_args {
-            quote! {
-                {
-                    #parsing
-                    #variant_fqn { #(#arguments)* }
-                }
+    // arguments are parsed even when command has none, so unexpected ones are reported
+    let (parsing, arguments) = create_arg_parsing(command);
+    let rhs = if command.named_args || arguments.is_empty() {
+        quote! {
+            {
+                #parsing
+                #variant_fqn { #(#arguments)* }
             }
-        } else {
-            quote! {
-                {
-                    #parsing
-                    #variant_fqn ( #(#arguments)* )
-                }
+        }
+    } else {
+        quote! {
+            {
+                #parsing
+                #variant_fqn ( #(#arguments)* )
             }
         }
     };
